@@ -85,7 +85,10 @@ def S_num_den(b, th):
 
 
 @cut("rq.root")
-def root_cut(cut_id, root, inputs):
+def root_cut(cut_id, root, inputs, inverse):
+    if not inverse:
+        # the lemma speaks about the inverse direction only (a refactor may share the local's name with the forward pass)
+        return (root,)
     ctx = C()
     b = ctx.notes["bin"]
     out = np.empty(root.shape, dtype=object)
@@ -112,7 +115,7 @@ RQ_CUTS = [
     ("heights", "rq.knots", ["widths", "cumwidths", "heights", "cumheights", "derivatives"], ["left", "right", "bottom", "top"]),
     ("input_heights", "rq.bin", ["input_cumwidths", "input_bin_widths", "input_cumheights", "input_delta", "input_derivatives",
                                  "input_derivatives_plus_one", "input_heights"], ["inputs", "inverse", "left", "right", "bottom", "top"]),
-    ("root", "rq.root", ["root"], ["inputs"]),
+    ("root", "rq.root", ["root"], ["inputs", "inverse"]),
 ]
 
 
